@@ -70,8 +70,28 @@ def _just_beside_a_boundary(rng, a, b):
     return (lo, hi) if a <= b else (hi, lo)
 
 
+STEPS_MS = [1e3, 5e3, 15e3, 3e4, 6e4, 3e5, 9e5, 18e5, 36e5, 108e5, 216e5, 432e5, 864e5, 1728e5, 6048e5, 2592e6, 7776e6, 31536e6]
+
+
 def gen_time_domain(rng, min_span_ms=1, max_span_ms=250 * 365 * 86400000):
     a, b, m, tag = _gen_time_domain(rng, min_span_ms, max_span_ms)
+    if rng.random() < 0.06 and m:
+        # span/m right at a switch point of the tick table (geometric mean of two neighbouring steps): the largest and the
+        # smallest admissible tick counts occur here; the earlier end sits on a boundary so that as many ticks as possible fit
+        i = rng.randrange(len(STEPS_MS) - 1)
+        sw = (STEPS_MS[i] * STEPS_MS[i + 1]) ** 0.5
+        span = int(m * sw * (1 + rng.choice([-0.012, -0.004, -1e-6, 1e-6, 0.004])))
+        if min_span_ms <= span <= max_span_ms:
+            from oracles import calendar as C
+
+            lo = min(a, b)
+            try:
+                lo = C.floor(rng.choice(["minute", "hour", "day"]), lo)
+                hi = lo + timedelta(milliseconds=span)
+                if LO <= lo and hi <= HI:
+                    a, b = (lo, hi) if a <= b else (hi, lo)
+            except (ValueError, OverflowError):
+                pass
     if rng.random() < 0.08:
         a, b = _just_beside_a_boundary(rng, a, b)
     return a, b, m, tag
